@@ -497,6 +497,22 @@ func (e *resetEngine) transfer(cur factSet, in ssa.Instruction, obj ssa.Value) {
 		}
 		cc := x.Common()
 		args := cc.Args
+		// buf.Reset() / buf.Truncate(0) on a bytes.Buffer / strings.Builder kept in a field of the object: the field is
+		// back in its empty state
+		if callee := cc.StaticCallee(); callee != nil && cc.Signature().Recv() != nil && len(args) > 0 && !core.InModule(callee) {
+			empties := callee.Name() == "Reset"
+			if callee.Name() == "Truncate" && len(args) == 2 {
+				if k, ok := core.ConstInt(args[1]); ok && k == 0 {
+					empties = true
+				}
+			}
+			if empties {
+				if pth, ok := e.objPath(args[0], obj); ok && pth != "" {
+					cur[pth] = true
+					return
+				}
+			}
+		}
 		idx := -1
 		for i, a := range args {
 			if e.same(a, obj) {
